@@ -313,7 +313,14 @@ def shrinkAll (I : FunI F α) : List Nat → St F (Simplex α) α → Except (Ex
                                    ext := { g with pSum := ps, simplex := g.simplex.set i vi', y := g.y.set i yi } }
     | _, _ => .error (.index, s.fn)
 
-/-- `DownhillSimplexMethod::doStep` (DownhillSimplexMethod.cpp:65-141) -/
+/-- the end of `doStep`, repaired: `getParameters_() = simplex_[iLowest_]; return y_[iLowest_];`
+(the index is that of an existing vertex: the `none` branch is never taken) -/
+def simplexReport (s : St F (Simplex α) α) (iL : Nat) : St F (Simplex α) α × α :=
+  match s.ext.simplex[iL]? with
+  | some best => ({ s with core := { s.core with params := best } }, s.ext.y.getD iL zero)
+  | none => (s, s.ext.y.getD iL zero)
+
+/-- `DownhillSimplexMethod::doStep` (DownhillSimplexMethod.cpp:65-146) -/
 def simplexDoStep (I : FunI F α) (s : St F (Simplex α) α) : Except (Exc × F) (St F (Simplex α) α × α) :=
   let g := s.ext
   match g.y[0]?, g.y[1]?, g.simplex[0]? with
@@ -330,7 +337,7 @@ def simplexDoStep (I : FunI F α) (s : St F (Simplex α) α) : Except (Exc × F)
         if leb yTry (s.ext.y.getD iL zero) then
           match tryExtrapolation I s (ofInt 2) with
           | .error e => .error e
-          | .ok (s, _) => .ok (s, s.ext.y.getD iL zero)
+          | .ok (s, _) => .ok (simplexReport s iL)
         else if geb yTry (s.ext.y.getD iN zero) then
           let ySave := s.ext.y.getD iH zero
           match tryExtrapolation I s (ofRat 1 2) with
@@ -345,9 +352,9 @@ def simplexDoStep (I : FunI F α) (s : St F (Simplex α) α) : Except (Exc × F)
                 | .error e => .error (e, s.fn)
                 | .ok ps =>
                   let s := { s with ext := { s.ext with pSum := ps } }
-                  .ok (s, s.ext.y.getD iL zero)
-            else .ok (s, s.ext.y.getD iL zero)
-        else .ok (s, s.ext.y.getD iL zero)
+                  .ok (simplexReport s iL)
+            else .ok (simplexReport s iL)
+        else .ok (simplexReport s iL)
   | _, _, _ => .error (.index, s.fn)
 
 /-- `DSMStopCondition::isToleranceReached` (DownhillSimplexMethod.h:42, .cpp:13) -/
